@@ -149,9 +149,8 @@ def primal_problem(q_a: np.ndarray, pperm: np.ndarray, num_reps: int) -> float:
     """
     num_spaces = 3
 
-    sys = list(range(1, num_spaces * num_reps))
-    sys = [elem for elem in sys if elem % num_spaces != 0]
-    sys = [elem - 1 for elem in sys]
+    # The operator in the objective function is arranged as Y^{(x) n} (x) Z^{(x) n} (x) X^{(x) n}: trace out every copy of Y and Z.
+    sys = list(range((num_spaces - 1) * num_reps))
 
     # The dimension of each subsystem is assumed to be of dimension 2.
     dim = 2 * np.ones((1, num_spaces * num_reps)).astype(int).flatten()
